@@ -24,3 +24,25 @@ def run(ctx):
             raise fw.Machinery(f"vacuity: {cfg} expected a reachability witness, TLC found none")
         out.append({"cfg": cfg, "reachable": True})
     return out
+
+
+def refines(ctx, kind):
+    """ExecOpt is a sound abstraction of Executor (step simulation checked by TLC), plus the
+    negative control.  kind: "bin" | "mix" | "hier"."""
+    cfgs = {"bin": ["ExecRefines.cfg"], "mix": ["ExecRefinesMixed.cfg"], "hier": ["ExecRefines.cfg"]}[kind]
+    if ctx.tier != "quick" and kind != "mix":
+        cfgs.append("ExecRefines22.cfg")
+    out = []
+    for cfg in cfgs:
+        r = tlc.run("ExecRefines", cfg=cfg, timeout=1200, workers=12)
+        ctx.add_run("ExecRefines/" + cfg, r)
+        if not r["ok"]:
+            raise fw.Machinery(f"ExecOpt does not simulate Executor ({cfg}): {tlc.invariant_violated(r)} "
+                               f"{r['error']}")
+        out.append({"cfg": cfg, "states": r["distinct"], "refines": True})
+    r = tlc.run("ExecRefines", cfg="ExecRefinesNeg.cfg", timeout=300, workers=4)
+    ctx.add_run("ExecRefines/neg", r)
+    if tlc.invariant_violated(r) is None:
+        raise fw.Machinery("vacuity: the negative control of the refinement check was not violated")
+    out.append({"cfg": "ExecRefinesNeg.cfg", "violated_as_expected": True})
+    return out
